@@ -25,6 +25,8 @@ const LAT: usize = 2;
 #[derive(Clone, Debug)]
 enum HostCmd {
     Send { to: usize, id: u32 },
+    /// send after sleeping `delay_us` inside the step
+    SendAfter { to: usize, id: u32, delay_us: u64 },
     Hold(usize, usize),
     Release(usize, usize),
     Partition(usize, usize),
@@ -41,6 +43,8 @@ struct FlowSt {
     recv: [Vec<(u32, usize, usize)>; 3],
     ips: Vec<IpAddr>,
     send_errs: Vec<String>,
+    /// per receiving host: (id, sender's sim_elapsed at send, receiver's sim_elapsed at receipt), microseconds
+    stamps: [Vec<(u32, u64, u64)>; 3],
 }
 
 struct Net3 {
@@ -51,9 +55,16 @@ struct Net3 {
 }
 
 fn build(tick_ms: u64, lat_ticks: usize, fail: f64, repair: f64, order_ba: bool) -> Net3 {
-    let mut b = builder(tick_ms);
     let lat = Duration::from_millis(tick_ms * lat_ticks as u64);
-    b.min_message_latency(lat).max_message_latency(lat).fail_rate(fail).repair_rate(repair).udp_capacity(64);
+    build_with(tick_ms, order_ba, |b| {
+        b.min_message_latency(lat).max_message_latency(lat).fail_rate(fail).repair_rate(repair);
+    })
+}
+
+fn build_with(tick_ms: u64, order_ba: bool, cfg: impl FnOnce(&mut turmoil::Builder)) -> Net3 {
+    let mut b = builder(tick_ms);
+    b.udp_capacity(64);
+    cfg(&mut b);
     let mut sim = b.build();
     let st = Rc::new(RefCell::new(FlowSt::default()));
     let notify: [Rc<Notify>; 3] = [Rc::new(Notify::new()), Rc::new(Notify::new()), Rc::new(Notify::new())];
@@ -66,7 +77,7 @@ fn build(tick_ms: u64, lat_ticks: usize, fail: f64, repair: f64, order_ba: bool)
             let rs = sock.clone();
             let st3 = st2.clone();
             tokio::task::spawn_local(async move {
-                let mut buf = [0u8; 8];
+                let mut buf = [0u8; 16];
                 loop {
                     match rs.recv_from(&mut buf).await {
                         Ok((n, from)) => {
@@ -74,8 +85,12 @@ fn build(tick_ms: u64, lat_ticks: usize, fail: f64, repair: f64, order_ba: bool)
                             let id = u32::from_le_bytes([buf[0], buf[1], buf[2], buf[3]]);
                             let fh = g.ips.iter().position(|ip| *ip == from.ip()).unwrap_or(9);
                             let step = g.step;
-                            let _ = n;
                             g.recv[h].push((id, fh, step));
+                            if n >= 12 {
+                                let sent = u64::from_le_bytes(buf[4..12].try_into().unwrap());
+                                let now = turmoil::sim_elapsed().map(|d| d.as_micros() as u64).unwrap_or(0);
+                                g.stamps[h].push((id, sent, now));
+                            }
                         }
                         Err(_) => break,
                     }
@@ -92,6 +107,22 @@ fn build(tick_ms: u64, lat_ticks: usize, fail: f64, repair: f64, order_ba: bool)
                             if let Err(e) = sock.try_send_to(&id.to_le_bytes(), (ip, PORT)) {
                                 st2.borrow_mut().send_errs.push(format!("send {id}: {}", errk(&e)));
                             }
+                        }
+                        HostCmd::SendAfter { to, id, delay_us } => {
+                            let ip = st2.borrow().ips[to];
+                            let s2 = sock.clone();
+                            let st4 = st2.clone();
+                            tokio::task::spawn_local(async move {
+                                if delay_us > 0 {
+                                    tokio::time::sleep(Duration::from_micros(delay_us)).await;
+                                }
+                                let now = turmoil::sim_elapsed().map(|d| d.as_micros() as u64).unwrap_or(0);
+                                let mut p = id.to_le_bytes().to_vec();
+                                p.extend_from_slice(&now.to_le_bytes());
+                                if let Err(e) = s2.try_send_to(&p, (ip, PORT)) {
+                                    st4.borrow_mut().send_errs.push(format!("send {id}: {}", errk(&e)));
+                                }
+                            });
                         }
                         HostCmd::Hold(a, b) => turmoil::hold(NAMES[a], NAMES[b]),
                         HostCmd::Release(a, b) => turmoil::release(NAMES[a], NAMES[b]),
@@ -622,6 +653,225 @@ pub fn c03_scenario(ch: &mut Chooser, thorough: bool) -> Exec {
     if let Some(v) = violation.as_mut() {
         v.sig = format!("{}|random={}|from_host={}|wide={}", v.clause, random, from_host, wide);
         v.scenario = format!("c03 tier={} steps={steps} calls<={max_calls} from_host={from_host} order_ba={order_ba} random={random} wide={wide}", if thorough { "thorough" } else { "quick" });
+        v.actions = obs.clone();
+    }
+    Exec { outcome: Digest::of64(&obs), violation, features: feats }
+}
+
+
+// ------------------------------------------------------------------------------------
+// C14
+
+pub fn c14_scenario(ch: &mut Chooser, thorough: bool) -> Exec {
+    let ticks: &[u64] = if thorough { &[1, 2, 3, 5] } else { &[1, 3] };
+    let tick = *ch.of("tick_ms", ticks);
+    let ranges: &[(u64, u64)] = if thorough { &[(0, 0), (1, 1), (2, 2), (0, 3), (1, 5), (3, 10)] } else { &[(2, 2), (0, 3), (3, 10)] };
+    let (gmin, gmax) = *ch.of("global_latency_ms", ranges);
+    // override: 0 none, 1 set_link_latency(A,B,d), 2 set_link_max_message_latency(A,B,m), 3 set_max_message_latency(m)
+    let okind = ch.choose("latency_override", 4);
+    let oval: u64 = if okind == 0 { 0 } else { *ch.of("override_value_ms", &[0u64, 4, 12]) };
+    let owhen = if okind == 0 { 0 } else { ch.choose("override_before_step", 2) }; // 0 = before the run, 1 = before step 1
+    let named = if okind == 0 { 0 } else { ch.choose("override_hosts_named_by", 2) }; // 0 name, 1 regex
+    let burst = *ch.of("burst", &[1usize, 2, 4]);
+    // tokio's paused clock has 1ms granularity: an in-step offset needs a tick of >= 2ms
+    let offset_half = tick >= 2 && ch.flag("second_message_sent_half_a_tick_later");
+    let send_steps = if burst == 4 { 1 } else { 2 };
+
+    // model of the configuration in force: global and per-link (A,B)
+    let mut glob = (gmin, gmax.max(gmin));
+    let mut linkcfg: Option<(u64, u64)> = None;
+    if okind >= 2 && oval < glob.0 && owhen == 0 && okind == 3 {
+        // a global maximum below the minimum would make the range negative (Duration underflow panic): skip
+        return Exec { outcome: 0, violation: None, features: vec!["skipped-invalid-config"] };
+    }
+    let apply_override = |sim: &Sim, glob: &mut (u64, u64), linkcfg: &mut Option<(u64, u64)>| {
+        let d = Duration::from_millis(oval);
+        match okind {
+            1 => {
+                if named == 1 {
+                    sim.set_link_latency(regex::Regex::new("^ha$").unwrap(), regex::Regex::new("^hb$").unwrap(), d)
+                } else {
+                    sim.set_link_latency(NAMES[0], NAMES[1], d)
+                }
+                *linkcfg = Some((oval, oval));
+            }
+            2 => {
+                if named == 1 {
+                    sim.set_link_max_message_latency(regex::Regex::new("^ha$").unwrap(), regex::Regex::new("^hb$").unwrap(), d)
+                } else {
+                    sim.set_link_max_message_latency(NAMES[0], NAMES[1], d)
+                }
+                let base = linkcfg.unwrap_or(*glob);
+                *linkcfg = Some((base.0, oval));
+            }
+            3 => {
+                sim.set_max_message_latency(d);
+                glob.1 = oval;
+            }
+            _ => {}
+        }
+    };
+    // configurations whose maximum ends up below their minimum make `max - min` underflow:
+    // that is a misconfiguration, not a property subject
+    let would_be = |glob: (u64, u64), linkcfg: Option<(u64, u64)>| -> bool {
+        let mut g = glob;
+        let mut l = linkcfg;
+        match okind {
+            1 => l = Some((oval, oval)),
+            2 => l = Some((l.unwrap_or(g).0, oval)),
+            3 => g.1 = oval,
+            _ => {}
+        }
+        g.1 >= g.0 && l.map(|x| x.1 >= x.0).unwrap_or(true)
+    };
+    if !would_be(glob, linkcfg) {
+        return Exec { outcome: 1, violation: None, features: vec!["skipped-invalid-config"] };
+    }
+
+    // latency variate answered by the explorer when the range in force is non-empty
+    let chp: *mut Chooser = ch;
+    let _guard = ChooserGuard;
+    let range_probe: Rc<RefCell<(u64, u64)>> = Rc::new(RefCell::new((0, 0)));
+    let assigned: Rc<RefCell<Vec<usize>>> = Rc::new(RefCell::new(vec![]));
+    {
+        let rp = range_probe.clone();
+        let asg = assigned.clone();
+        turmoil::verif::set_chooser(Some(Box::new(move |site, n| {
+            if site != "latency-variate" {
+                return 0;
+            }
+            let (lo, hi) = *rp.borrow();
+            let c = if hi > lo {
+                let c = unsafe { &mut *chp };
+                c.choose("latency-variate", n)
+            } else {
+                0
+            };
+            asg.borrow_mut().push(c);
+            c
+        })));
+    }
+    let mut net = build_with(tick, false, |b| {
+        b.min_message_latency(Duration::from_millis(gmin)).max_message_latency(Duration::from_millis(gmax.max(gmin)));
+    });
+    if okind != 0 && owhen == 0 {
+        apply_override(&net.sim, &mut glob, &mut linkcfg);
+    }
+    // warm-up step: every host binds its socket before any traffic
+    if let Err(e) = net.step(0) {
+        return Exec { outcome: 2, violation: Some(Violation::new("sim-error", e)), features: vec![] };
+    }
+    let mut next_id = 1u32;
+    // (id, from, to, cfg in force (min,max) ms, send order index)
+    let mut sent: Vec<(u32, usize, usize, (u64, u64))> = vec![];
+    let mut violation: Option<Violation> = None;
+    let mut obs: Vec<String> = vec![];
+    let mut feats: Vec<&'static str> = vec![];
+    let horizon = send_steps + (20 / tick as usize) + 4;
+    for k in 0..horizon {
+        if k == 1 && okind != 0 && owhen == 1 {
+            apply_override(&net.sim, &mut glob, &mut linkcfg);
+            obs.push(format!("before step 1: override kind {okind} value {oval}ms"));
+        }
+        if k < send_steps {
+            // the variate is drawn at send time, in send order: A->B burst, then B->A, then A->C
+            let ab = linkcfg.unwrap_or(glob);
+            *range_probe.borrow_mut() = ab; // A<->B traffic first; A->C uses the global range (set below)
+            for i in 0..burst {
+                let id = next_id;
+                next_id += 1;
+                let delay_us = if offset_half && i % 2 == 1 { (tick / 2) * 1000 } else { 0 };
+                sent.push((id, 0, 1, ab));
+                net.host_cmd(0, HostCmd::SendAfter { to: 1, id, delay_us });
+            }
+            let id = next_id;
+            next_id += 1;
+            sent.push((id, 1, 0, ab));
+            net.host_cmd(1, HostCmd::SendAfter { to: 0, id, delay_us: 0 });
+        }
+        if let Err(e) = net.step(k) {
+            violation = Some(Violation::new("sim-error", e));
+            break;
+        }
+    }
+    turmoil::verif::set_chooser(None);
+    let g = net.st.borrow();
+    let tick_us = tick * 1000;
+    if violation.is_none() {
+        if !g.send_errs.is_empty() {
+            violation = Some(Violation::new("send-error", format!("{:?}", g.send_errs)));
+        }
+    }
+    if violation.is_none() {
+        for (id, from, to, (lo, hi)) in &sent {
+            let got: Vec<_> = g.stamps[*to].iter().filter(|s| s.0 == *id).collect();
+            if got.len() != 1 {
+                violation = Some(Violation::new(
+                    "not-delivered",
+                    format!("datagram {id} {}->{} on a healthy link was received {} times within {} steps (latency window {lo}..{hi}ms, tick {tick}ms)", NAMES[*from], NAMES[*to], got.len(), horizon),
+                ));
+                break;
+            }
+            let (_, s_us, r_us) = *got[0];
+            let delta = r_us as i64 - s_us as i64;
+            let lo_us = (*lo * 1000) as i64 - tick_us as i64;
+            let hi_us = (*hi * 1000) as i64 + tick_us as i64;
+            if delta < lo_us || delta > hi_us {
+                violation = Some(Violation::new(
+                    "latency-window",
+                    format!(
+                        "datagram {id} {}->{}: sent at {}us, received at {}us (delay {}us); the latency in force at send time was {lo}..{hi}ms and the tick is {tick}ms, so the delay must lie in [{}, {}]us",
+                        NAMES[*from], NAMES[*to], s_us, r_us, delta, lo_us, hi_us
+                    ),
+                ));
+                break;
+            }
+            if hi > lo {
+                feats.push("ranged-latency");
+            }
+        }
+    }
+    if violation.is_none() {
+        // equal assigned latency A->B => arrival order = send order. Assigned latency of the
+        // j-th A->B message of a step is known from the variate the explorer answered.
+        let asg = assigned.borrow();
+        // variate draws happen in actual send order, which follows host order and in-step
+        // offsets; with offsets the order across hosts is not the push order, so the tie
+        // check is restricted to fixed-latency configurations (every draw equal)
+        let first_cfg = sent[0].3;
+        let fixed = sent.iter().all(|s| s.3 .0 == s.3 .1 && s.3 == first_cfg);
+        if fixed {
+            let ab: Vec<u32> = sent.iter().filter(|s| s.1 == 0 && s.2 == 1).map(|s| s.0).collect();
+            let arrived: Vec<u32> = g.stamps[1].iter().map(|s| s.0).filter(|id| ab.contains(id)).collect();
+            // send order within a step: messages with a half-tick offset are sent after those without
+            let mut expect: Vec<(u64, u32)> = vec![];
+            for id in &ab {
+                let s = g.stamps[1].iter().find(|s| s.0 == *id).map(|s| s.1).unwrap_or(0);
+                expect.push((s, *id));
+            }
+            expect.sort();
+            let expect: Vec<u32> = expect.into_iter().map(|x| x.1).collect();
+            // stable only if send stamps are distinct or pushes were in id order
+            let mut ok = arrived.len() == expect.len();
+            if ok {
+                // compare as sequences of send stamps (ties among equal stamps keep id order)
+                ok = arrived == expect;
+            }
+            if !ok {
+                violation = Some(Violation::new(
+                    "order",
+                    format!("fixed latency {:?}ms: datagrams A->B were sent in the order {:?} but arrived in the order {:?}", sent[0].3, expect, arrived),
+                ));
+            }
+            feats.push("fixed-latency-order-checked");
+        }
+        let _ = asg;
+    }
+    obs.push(format!("tick={tick} global=({gmin},{gmax}) override={okind}/{oval}/{owhen} burst={burst} half={offset_half} stamps={:?} variates={:?}", g.stamps, assigned.borrow()));
+    drop(g);
+    if let Some(v) = violation.as_mut() {
+        v.sig = format!("{}|override={}", v.clause, okind);
+        v.scenario = format!("c14 tier={} tick={tick} global=({gmin},{gmax}) override={okind}/{oval}/{owhen} burst={burst} half={offset_half}", if thorough { "thorough" } else { "quick" });
         v.actions = obs.clone();
     }
     Exec { outcome: Digest::of64(&obs), violation, features: feats }
